@@ -35,6 +35,7 @@ RULE = (
 RULE += (" Template texts: for every public callable reachable from the template context (query / queries, rule, pipeline; public attributes, list items, dict values to depth 5; one per class and method) a template that calls it with the path of a Python file (and with no argument; thorough: two paths, source file) in a default-loaded pipeline, as post-processing template and as finalizer template: no process, network or exec-from-that-file event may occur, whatever the call returns or raises.")
 RULE += (" The attempts that pass an opt-in are repeated after the template has rendered another template item of the same pipeline (re-entrant rendering).")
 RULE += (" Pipeline YAML texts with explicit python tags (object/apply, object/new, name) are loaded through from_yaml and the resolver: no process may be started.")
+RULE += (" Variables files also lie in a directory that differs from the allowed one in letter case only, or are spelled through the allowed directory with '..'.")
 ASSUMPTIONS = [
     "capabilities are observed through CPython audit events (none of the anchored code uses a C "
     "extension that bypasses them)",
@@ -81,13 +82,14 @@ def _install():
 
 def _scratch():
     root = os.path.realpath(tempfile.mkdtemp(prefix="vfc16."))
-    for d in ("base", "base2", "out", "base/sub"):
+    for d in ("base", "base2", "out", "base/sub", "BASE"):
         os.makedirs(os.path.join(root, d))
     body = "vars = {'helper': lambda x: x}\n"
     files = {
         "inside": os.path.join(root, "base", "sub", "vars.py"),
         "outside": os.path.join(root, "out", "vars.py"),
         "prefix": os.path.join(root, "base2", "vars.py"),
+        "case": os.path.join(root, "BASE", "vars.py"),     # differs from the allowed directory in letter case only
     }
     for p in files.values():
         with open(p, "w") as f:
@@ -95,6 +97,7 @@ def _scratch():
     link = os.path.join(root, "base", "link.py")
     os.symlink(files["outside"], link)
     files["symlink"] = link
+    files["dotdot"] = os.path.join(root, "base", "..", "out", "vars.py")   # spelled through the allowed directory
     src = os.path.join(root, "out", "source.txt")
     with open(src, "w") as f:
         f.write("v1\nv2\n")
@@ -408,8 +411,8 @@ def check_case(case: dict) -> Outcome:
                 out.fail(f"C16:wrong-error-class:{kind}:{type(use_err).__name__}", f"{desc}: use failed with {use_err!r} instead of SigmaSecurityError")
         else:
             out.label("events:" + ("yes" if caps else "no"))
-            if not is_ext and restrict and pclass in ("outside", "symlink", "prefix"):
-                bad = [e for e in events if e[0] in ("exec", "open") and (e[1].startswith("out/") or e[1].startswith("base2/"))]
+            if not is_ext and restrict and pclass in ("outside", "symlink", "prefix", "case", "dotdot"):
+                bad = [e for e in events if e[0] in ("exec", "open") and (e[1].startswith("out/") or e[1].startswith("base2/") or e[1].startswith("BASE/"))]
                 if bad:
                     out.fail(f"C16:vars-outside-allowed-dir-executed:{pclass}", f"{desc}: {bad[:3]}")
                 elif not isinstance(load_err or use_err, SigmaError):
@@ -462,7 +465,7 @@ def cases(draw):
     env = draw(st.sampled_from([None, None, None, "0", "1", "true", "no", ""]))
     return {"kind": kind, "depth": draw(st.integers(0, 3)), "inject": inj, "inject_top": top,
             "optin_arg": optin, "env": env, "loader": draw(st.sampled_from(["yaml", "dict", "resolver"])),
-            "path_class": draw(st.sampled_from(["inside", "outside", "symlink", "prefix"])),
+            "path_class": draw(st.sampled_from(["inside", "outside", "symlink", "prefix", "case", "dotdot"])),
             "restrict": draw(st.booleans())}
 
 
